@@ -453,7 +453,7 @@ func interleaved(c *Cell, tp *tape.Tape) (out []byte) {
 		// (what a Mocker learns about "its" module must stay its own)
 		if other, err := filepath.Abs(filepath.Join("..", "..", "m2", "q")); err == nil {
 			if _, serr := os.Stat(other); serr == nil {
-				oc := c.config()
+				oc := flipped(c) // (the last instance created before Mock differs in everything but the formatter)
 				oc.SrcDir, oc.PkgName = other, ""
 				if _, err := newFn(oc); err != nil {
 					return []byte("ERROR: instance for another module: " + err.Error())
